@@ -51,6 +51,9 @@ def run(ctx) -> None:
     ctx.reuse("C13.mask", c10.aggregate_evo)
     ctx.reuse("C13.mask", c10.slots)
     ctx.guard("C13.siblings", siblings)
+    from .common import memo_rule
+
+    ctx.guard("C13.no-cache", memo_rule, "C13.no-cache", ("evotools/commands.py", "evotools/worklist.py"))
 
 
 def same_args(ctx, name: str, track: str) -> None:
